@@ -21,7 +21,7 @@
 use crate::{
     addresses::PublicAddresses,
     error::{Error, ImmediateDialError, SubstreamError},
-    protocol::{connection::ConnectionHandle, InnerTransportEvent, TransportEvent},
+    protocol::{connection::ConnectionHandle, Direction, InnerTransportEvent, TransportEvent},
     transport::{manager::TransportManagerHandle, Endpoint},
     types::{protocol::ProtocolName, ConnectionId, SubstreamId},
     PeerId, DEFAULT_CHANNEL_SIZE,
@@ -32,7 +32,7 @@ use multiaddr::{Multiaddr, Protocol};
 use tokio::sync::mpsc::{channel, Receiver, Sender};
 
 use std::{
-    collections::{HashMap, HashSet},
+    collections::{HashMap, HashSet, VecDeque},
     fmt::Debug,
     pin::Pin,
     sync::{
@@ -306,6 +306,13 @@ pub struct TransportService {
 
     /// Whether this protocol susbstreams should keep connection alive.
     substream_keep_alive: SubstreamKeepAlive,
+
+    /// Outbound substreams that have been requested but not yet reported opened or failed,
+    /// together with the connection they were requested on, in the order of the requests.
+    pending_outbound: Vec<(SubstreamId, PeerId, ConnectionId)>,
+
+    /// Events waiting to be handed to the protocol.
+    pending_events: VecDeque<TransportEvent>,
 }
 
 impl TransportService {
@@ -334,6 +341,8 @@ impl TransportService {
                 connections: HashMap::new(),
                 keep_alive_tracker,
                 substream_keep_alive,
+                pending_outbound: Vec::new(),
+                pending_events: VecDeque::new(),
             },
             tx,
         )
@@ -418,6 +427,38 @@ impl TransportService {
 
     /// Handle connection closed event.
     fn on_connection_closed(
+        &mut self,
+        peer: PeerId,
+        connection_id: ConnectionId,
+    ) -> Option<TransportEvent> {
+        let event = self.on_connection_closed_inner(peer, connection_id);
+
+        // Substreams that were still being opened over the closed connection are lost with it.
+        // If this was the last connection to the peer, `ConnectionClosed` tells the protocol so;
+        // if the peer stays connected over another connection, nothing else would ever conclude
+        // those requests, so report them as failed.
+        let still_connected = event.is_none() && self.connections.contains_key(&peer);
+        let (lost, kept): (Vec<_>, Vec<_>) = std::mem::take(&mut self.pending_outbound)
+            .into_iter()
+            .partition(|(_, pending_peer, pending_connection)| {
+                pending_peer == &peer && pending_connection == &connection_id
+            });
+        self.pending_outbound = kept;
+
+        if still_connected {
+            for (substream, _, _) in lost {
+                self.pending_events.push_back(TransportEvent::SubstreamOpenFailure {
+                    substream,
+                    error: SubstreamError::ConnectionClosed,
+                });
+            }
+        }
+
+        event
+    }
+
+    /// Handle connection closed event.
+    fn on_connection_closed_inner(
         &mut self,
         peer: PeerId,
         connection_id: ConnectionId,
@@ -590,15 +631,17 @@ impl TransportService {
             connection.try_upgrade();
         }
 
-        connection
-            .open_substream(
-                self.protocol.clone(),
-                self.fallback_names.clone(),
-                substream_id,
-                permit,
-                self.substream_keep_alive,
-            )
-            .map(|_| substream_id)
+        connection.open_substream(
+            self.protocol.clone(),
+            self.fallback_names.clone(),
+            substream_id,
+            permit,
+            self.substream_keep_alive,
+        )?;
+
+        self.pending_outbound.push((substream_id, peer, connection_id));
+
+        Ok(substream_id)
     }
 
     /// Forcibly close the connection, even if other protocols have substreams open over it.
@@ -642,6 +685,10 @@ impl Stream for TransportService {
         let protocol_name = self.protocol.clone();
         let keep_alive_timeout = self.keep_alive_tracker.keep_alive_timeout;
 
+        if let Some(event) = self.pending_events.pop_front() {
+            return Poll::Ready(Some(event));
+        }
+
         while let Poll::Ready(event) = self.rx.poll_recv(cx) {
             match event {
                 None => {
@@ -668,6 +715,10 @@ impl Stream for TransportService {
                     if let Some(event) = self.on_connection_closed(peer, connection) {
                         return Poll::Ready(Some(event));
                     }
+
+                    if let Some(event) = self.pending_events.pop_front() {
+                        return Poll::Ready(Some(event));
+                    }
                 }
                 Some(InnerTransportEvent::SubstreamOpened {
                     peer,
@@ -691,12 +742,24 @@ impl Stream for TransportService {
                     // This is for the reader, not for compiler.
                     drop(opening_permit);
 
+                    if let Direction::Outbound(substream_id) = direction {
+                        self.pending_outbound.retain(|(pending, _, _)| pending != &substream_id);
+                    }
+
                     return Poll::Ready(Some(TransportEvent::SubstreamOpened {
                         peer,
                         protocol,
                         fallback,
                         direction,
                         substream,
+                    }));
+                }
+                Some(InnerTransportEvent::SubstreamOpenFailure { substream, error }) => {
+                    self.pending_outbound.retain(|(pending, _, _)| pending != &substream);
+
+                    return Poll::Ready(Some(TransportEvent::SubstreamOpenFailure {
+                        substream,
+                        error,
                     }));
                 }
                 Some(event) => return Poll::Ready(Some(event.into())),
